@@ -75,6 +75,11 @@ var c11new = Register("C11", "C11.new", func(a c11NewArgs) *Violation {
 		klass = "above-emax-compensated"
 	}
 	st.Class(klass)
+	if klass == "in-range-exact" || klass == "subnormal-exact" || klass == "above-emax-compensated" {
+		if v := exactInAllModes("New("+itoa64(a.Sig)+", "+itoa64(int64(a.Exp))+")", d128.New(a.Sig, a.Exp), func() d128.Decimal { return d128.New(a.Sig, a.Exp) }); v != nil {
+			return v
+		}
+	}
 	if klass != "in-range-exact" {
 		st.NT(hashWords(uint64(a.Sig), uint64(int64(a.Exp))), func() any {
 			return map[string]any{"sig": a.Sig, "exp": a.Exp, "class": klass, "want": want.String()}
@@ -125,6 +130,11 @@ var c11ldexp = Register("C11", "C11.ldexp", func(a c11LdexpArgs) *Violation {
 		st.Class("exp-argument-alone-out-of-range")
 	}
 	st.Class(klass)
+	if klass == "in-range-exact" || klass == "subnormal-exact" || klass == "above-emax-compensated" {
+		if v := exactInAllModes("Ldexp("+nf.String()+", "+itoa64(int64(a.Exp))+")", gotD, func() d128.Decimal { return d128.Ldexp(f, a.Exp) }); v != nil {
+			return v
+		}
+	}
 	if klass != "in-range-exact" {
 		st.NT(hashWords(a.Frac.Hi, a.Frac.Lo, uint64(int64(a.Exp))), func() any {
 			return map[string]any{"frac": nf.String(), "exp": a.Exp, "class": klass, "want": want.String()}
@@ -168,6 +178,9 @@ var c11frexp = Register("C11", "C11.frexp", func(a c11FrexpArgs) *Violation {
 	back := ref.Decode(d128.Ldexp(frac, e))
 	if !ref.SameVal(back, n) {
 		return violf("Ldexp(Frexp(%s)) = %s", n, back)
+	}
+	if v := exactInAllModes("Ldexp(Frexp("+n.String()+"))", d, func() d128.Decimal { return d128.Ldexp(d128.Frexp(d)) }); v != nil {
+		return v
 	}
 	st.NT(hashWords(a.V.Hi, a.V.Lo), func() any {
 		return map[string]any{"d": n.String(), "frac": nf.String(), "e": e}
